@@ -143,6 +143,50 @@ theorem sendable_header_text (H : Alg → Bytes → Bytes) (hH : ∀ a x, (H a x
       exact header_text _ (params_okT (H alg) { c with qop := qop } { user, pass, method, uri } (hex8 (0 + 1))
         ((hex r).take 32) (hH alg) hx.user hx.realm hx.nonce hx.uri hx.opaq halg' hqop' hncok hcn)
 
+/-- **answer_shape**: whatever the challenge offers, the answer is written from the parameter
+list `params` with the qop option `auth` or none at all — never `auth-int`, never a list (so no
+hash of a body is ever claimed) — and with the nonce count of a FIRST use. -/
+theorem answer_shape (H : Alg → Bytes → Bytes) (c : Challenge) (cr : Cred) (rnd : Option Bytes) (hdr : Bytes)
+    (ha : authorize H algOf c cr rnd = .ok hdr) :
+    ∃ alg qop r, algOf c.algorithm = some alg ∧ rnd = some r ∧ (qop = [] ∨ qop = b!"auth") ∧
+      hdr = digestPrefix ++ commaJoin ((params (H alg) { c with qop := qop } cr (hex8 (cr.nc + 1))
+        ((hex r).take 32)).map renderParam) := by
+  unfold authorize at ha
+  split at ha
+  · cases ha
+  · rename_i qop hsel
+    obtain ⟨_, hq⟩ := selectQop_ok hsel
+    split at ha
+    · cases ha
+    · cases ha
+    · rename_i alg r halg
+      simp only [Except.ok.injEq] at ha
+      refine ⟨alg, qop, r, halg, rfl, ?_, ha.symm⟩
+      rcases hq with ⟨e, _, _⟩ | ⟨e, _, _⟩
+      · exact Or.inl e
+      · exact Or.inr e
+
+/-- **nonce_count_is_one**: the middleware keeps no nonce: every answer it ever sends carries
+`nc=00000001` (when it carries one). A server nonce is never used twice by the client itself;
+each new request costs a 401 round (the statelessness is what lane `seq` exercises). -/
+theorem nonce_count_is_one (H : Alg → Bytes → Bytes) (lines : List Bytes) (user pass method uri : Bytes)
+    (rnd : Option Bytes) (hdr : Bytes)
+    (ha : createDigestAuth H algOf lines { user, pass, method, uri } rnd = .ok hdr) :
+    ∃ (alg : Alg) (c : Challenge) (qop r : Bytes), (qop = [] ∨ qop = b!"auth") ∧
+      hdr = digestPrefix ++ commaJoin ((params (H alg) { c with qop := qop } { user, pass, method, uri }
+        b!"00000001" ((hex r).take 32)).map renderParam) := by
+  unfold createDigestAuth at ha
+  simp only at ha
+  split at ha
+  · cases ha
+  · split at ha
+    · cases ha
+    · rename_i c _
+      obtain ⟨alg, qop, r, _, _, hq, hh⟩ := answer_shape H c _ rnd hdr ha
+      have h1 : hex8 (0 + 1) = b!"00000001" := hex8_one
+      have h2 : ({ user := user, pass := pass, method := method, uri := uri } : Cred).nc = 0 := rfl
+      exact ⟨alg, c, qop, r, hq, by rw [hh, h2, h1]⟩
+
 /-! ### unsupported challenges, entropy, qop selection -/
 
 /-- A challenge the client can answer: registered algorithm, no qop or a qop list offering
